@@ -186,6 +186,8 @@ def suite_fonts(ctx, res, n):
     ops, meta = [], []
     cases = list(fontgen.gen_cases(ctx.rng, n, formats=["glyf_colr_1", "glyf_colr_1", "cff_colr_1"]))
     cases += [with_empty_and_twin(c) for c in cases[:max(3, n // 8)]]
+    # one outline several times with one fill inside a group (equal sub-paints under different transforms)
+    cases += [fontgen.make_group_copies_case(ctx.rng.getrandbits(32), ["glyf_colr_1", "cff_colr_1"][i % 2]) for i in range(max(4, n // 8))]
     for case in cases:
         with BoundsRecorder() as rec:
             out = fontgen.build(case)
@@ -215,6 +217,9 @@ def run(ctx, res):
                 "non-trivial = step > 1 (quantize), every font")
     suite_quantize(ctx, res, ctx.budget(2000, 40000))
     suite_fonts(ctx, res, ctx.budget(40, 1000))
+    # `_bounds` walks the paint with Paint.breadth_first: the walk itself is tied to the Lean tree model (C03.glyphs_*), with repeated sub-paints
+    from harness.props import C03
+    C03.suite_traversal(ctx, res, ctx.budget(200, 4000))
 
 
 def search(ctx, res, broken):
